@@ -1344,7 +1344,7 @@ func (x *Exec) arraySortOf(arr string) string {
 // ---------- anchors
 
 func (x *Exec) anchors(st *State, anchor string, env *Env) {
-	if x.FC == nil {
+	if x.FC == nil || x.Unroll > 0 {
 		return
 	}
 	for ai, a := range x.FC.Asserts {
